@@ -125,4 +125,41 @@ CHECKS = {
             job("builder", "c04", ["TestC04Builder"], 1500, 20000, 2, 10),
         ],
     },
+    "C13": {
+        "level": "exploration",
+        "manifest": {
+            "technique": "property-based testing, metamorphic oracle: rapid-generated index and WITHOUT ROWID b-trees of chosen shape (independent builder); cut points enumerated from every stored entry's every prefix plus neighbours/extremes/over-long keys; ScanMin/ScanEq/ScanRange must equal the full Scan filtered with the reference comparator",
+            "level_text": "Generated index trees (depth 1-5, entries in interior pages, duplicate runs across pages, per-column COLLATE/DESC) x enumerated cut points; oracle = filter of the full scan by refcmp (validated against SQLite in C11), full scan itself compared with the builder's entry list. Sampled over trees, exhaustive over the stated cut-point classes per tree.",
+            "level_note": "Key flags are taken from the index definition (the documented precondition). Builder validated against SQLite 3.40.1 on a sample and before any report.",
+        },
+        "rule": ("images: rowid table with 1-2 indexes of 1-3 columns (random COLLATE/DESC) and a WITHOUT ROWID table with 1-2 key columns; values from a small pool so that duplicates and collation ties are "
+                 "frequent; cells per leaf 1-4, fan-out 2-4. Cut points per tree: the empty key, every prefix of every entry, each third entry extended beyond the record, lowest/highest values, "
+                 "random extra values alone and as second column; up to 200 (from,to) pairs per tree. One evaluation = one image with all cut points (counted separately). "
+                 "Non-trivial = depth >= 2 and at least one cut point equal to an interior entry or the first/last entry of a leaf."),
+        "assumptions": ["system libsqlite3 (3.40.1) validates the builder", "refcmp is validated against SQLite by C11"],
+        "min_nontrivial": {"quick": 150, "thorough": 2000},
+        "required_classes": ["maxdepth=2", "maxdepth=3", "maxdepth=4", "sqlite-validated", "cut-points-at-page-boundary"],
+        "timeout": {"quick": 300, "thorough": 1500},
+        "jobs": [
+            job("ranges", "c13", ["TestC13Ranges"], 600, 6000, 2, 10),
+        ],
+    },
+    "C17": {
+        "level": "exploration",
+        "manifest": {
+            "technique": "property-based testing with exhaustive stop positions: rapid-generated table/index/WITHOUT ROWID trees of chosen shape (independent builder); for every operation with a stop signal and every k = 1..n the stopped run must deliver exactly the first k rows of the full run, call back k times, return nil and (high-level API) release the read lock with no page read outside it",
+            "level_text": "Generated trees x all stop positions per operation (Table.Scan, Index.Scan, ScanMin, ScanEq, ScanRange, SelectDone on rowid and WITHOUT ROWID tables); oracle = the operation's own complete result (metamorphic), lock state from the counting memory pager. Sampled over trees, exhaustive in k per (tree, operation).",
+            "level_note": "Lock release is observed on the harness pager behind the verif hook (lock/unlock counts and reads outside the lock); the real fcntl locks on files are C06's subject.",
+        },
+        "rule": ("images as for C13 (0-40 rows per tree, cells per leaf 1-4, fan-out 2-4, depth 1-6); operations: full scans, from-key/equality/range scans with the empty key and with keys taken from stored "
+                 "entries, SelectDone on both table kinds; every stop position k in 1..len(result). One evaluation = one image with all its (operation, k) pairs (counted separately as stop-positions). "
+                 "Non-trivial = some tree of depth >= 2 and at least one stop position."),
+        "assumptions": ["system libsqlite3 (3.40.1) validates the builder"],
+        "min_nontrivial": {"quick": 150, "thorough": 2000},
+        "required_classes": ["maxdepth=2", "maxdepth=3", "maxdepth=4", "sqlite-validated", "stop-positions"],
+        "timeout": {"quick": 300, "thorough": 1500},
+        "jobs": [
+            job("stop", "c17", ["TestC17EarlyStop"], 600, 6000, 2, 10),
+        ],
+    },
 }
